@@ -429,6 +429,70 @@ def fold_constant_tests(tree):
     return tree
 
 
+def unroll_constant_loops(tree):
+    """for a, b in <tuple of constant tuples>: BODY   ->   BODY[a, b := c1] ; BODY[a, b := c2] ; ...
+    when the iterable is a tuple literal (or a module-level name bound once to one) of at most 16 constants / tuples of constants, the
+    body neither exits the loop early nor rebinds the loop variables, and the loop variables are not used after the loop;
+    then  setattr(x, 'name', v)  with a literal identifier is the store  x.name = v."""
+    import copy
+    consts = {}
+    for n in tree.body:
+        if isinstance(n, ast.Assign) and len(n.targets) == 1 and isinstance(n.targets[0], ast.Name) and isinstance(n.value, ast.Tuple):
+            consts[n.targets[0].id] = None if n.targets[0].id in consts else n.value
+    for n in ast.walk(tree):
+        if isinstance(n, ast.Name) and isinstance(n.ctx, (ast.Store, ast.Del)) and n.id in consts and \
+                not any(isinstance(t, ast.Assign) and t.targets[0] is n for t in tree.body):
+            consts[n.id] = None          # rebound somewhere else
+
+    def const_elt(x):
+        return isinstance(x, ast.Constant) or (isinstance(x, ast.Tuple) and all(isinstance(y, ast.Constant) for y in x.elts))
+
+    class Sub(ast.NodeTransformer):
+        def __init__(self, m):
+            self.m = m
+
+        def visit_Name(self, n):
+            if n.id in self.m and isinstance(n.ctx, ast.Load):
+                return ast.copy_location(ast.Constant(value=self.m[n.id]), n)
+            return n
+    for fn in [x for x in ast.walk(tree) if isinstance(x, (ast.FunctionDef, ast.AsyncFunctionDef))]:
+        for blk in _own_blocks(fn):
+            i = 0
+            while i < len(blk):
+                st = blk[i]
+                if isinstance(st, ast.For) and not st.orelse:
+                    it = st.iter
+                    if isinstance(it, ast.Name) and consts.get(it.id) is not None and \
+                            not any(isinstance(x, ast.Name) and x.id == it.id and isinstance(x.ctx, ast.Store) for x in ast.walk(fn)):
+                        it = consts[it.id]
+                    tv = [st.target.id] if isinstance(st.target, ast.Name) else \
+                        ([e.id for e in st.target.elts] if isinstance(st.target, ast.Tuple) and all(isinstance(e, ast.Name) for e in st.target.elts) else None)
+                    if isinstance(it, ast.Tuple) and 0 < len(it.elts) <= 16 and all(const_elt(x) for x in it.elts) and tv is not None and \
+                            not any(isinstance(x, (ast.Break, ast.Continue, ast.FunctionDef, ast.Lambda)) for b in st.body for x in ast.walk(b)) and \
+                            not any(isinstance(x, ast.Name) and x.id in tv and isinstance(x.ctx, (ast.Store, ast.Del)) for b in st.body for x in ast.walk(b)) and \
+                            sum(1 for x in ast.walk(fn) if isinstance(x, ast.Name) and x.id in tv) == \
+                            sum(1 for x in ast.walk(st) if isinstance(x, ast.Name) and x.id in tv) and \
+                            all((isinstance(x, ast.Constant) and len(tv) == 1) or (isinstance(x, ast.Tuple) and len(x.elts) == len(tv)) for x in it.elts):
+                        new = []
+                        for x in it.elts:
+                            vals = [x.value] if isinstance(x, ast.Constant) else [y.value for y in x.elts]
+                            for b in st.body:
+                                new.append(Sub(dict(zip(tv, vals))).visit(copy.deepcopy(b)))
+                        blk[i:i + 1] = new
+                        continue
+                i += 1
+    # setattr with a literal name
+    for node, fld, blk in list(_blocks(tree)):
+        for i, st in enumerate(blk):
+            if isinstance(st, ast.Expr) and isinstance(st.value, ast.Call) and isinstance(st.value.func, ast.Name) and \
+                    st.value.func.id == 'setattr' and len(st.value.args) == 3 and not st.value.keywords and \
+                    isinstance(st.value.args[1], ast.Constant) and isinstance(st.value.args[1].value, str) and \
+                    st.value.args[1].value.isidentifier() and isinstance(st.value.args[0], ast.Name):
+                tgt = ast.Attribute(value=st.value.args[0], attr=st.value.args[1].value, ctx=ast.Store())
+                blk[i] = ast.copy_location(ast.Assign(targets=[ast.copy_location(tgt, st)], value=st.value.args[2]), st)
+    return tree
+
+
 def loops_to_comprehensions(tree):
     """X = [] ; for T in IT: [if C:] X.append(E)   ->   X = [E for T in IT if C]      (X not used in IT / C / E, nothing between
        the two statements mentions X);  D = {} ; for T in IT: [if C:] D[K] = V  ->  D = {K: V for T in IT if C}"""
@@ -503,6 +567,7 @@ def merge_dict_stores(tree):
 
 
 def shape(tree, modname=None):
+    tree = unroll_constant_loops(tree)
     tree = ifexp_to_statement(tree)
     tree = defaults_to_else(tree)
     tree = NNF().visit(tree)
@@ -650,7 +715,7 @@ PURE_FUNCS = {
     'ceil', 'floor', 'isscalar', 'isnan', 'clip', 'searchsorted', 'unique', 'amax', 'amin', 'tile', 'divide', 'multiply', 'prod',
     'matmul', 'flip', 'sort', 'copy', 'deepcopy', 'sinc', 'pi', 'arcsinh', 'arctan', 'expand_dims', 'stack', 'hstack', 'vstack',
     'zeros_like', 'ones_like', 'full_like', 'transpose', 'reshape', 'ravel', 'fabs', 'sign', 'square', 'power', 'maximum', 'minimum',
-    'lin2db', 'db2lin', 'watt2dbm', 'dbm2watt', 'Decimal', 'Fraction', 'namedtuple', 'OrderedDict', 'Counter', 'defaultdict',
+    'pairwise', 'lin2db', 'db2lin', 'watt2dbm', 'dbm2watt', 'Decimal', 'Fraction', 'namedtuple', 'OrderedDict', 'Counter', 'defaultdict',
 }
 PURE_METHODS = {'get', 'items', 'values', 'keys', 'lower', 'upper', 'strip', 'lstrip', 'rstrip', 'split', 'startswith', 'endswith',
                 'format', 'copy', 'index', 'count', 'join', 'replace', 'title', 'isdigit', 'astype', 'tolist', 'flatten', 'reshape',
